@@ -30,6 +30,7 @@ REPO = os.environ.get('VERIF_REPO', '/repo')
 NPROC = int(os.environ.get('VERIF_NPROC', '16'))
 TIMEOUT_MS = int(os.environ.get('VERIF_SMT_TIMEOUT_MS', '15000'))
 FALLBACK_MS = int(os.environ.get('VERIF_SMT_FALLBACK_MS', '6000'))
+PRIMARY_MS = int(os.environ.get('VERIF_SMT_PRIMARY_MS', '4000'))
 
 _ASTS = {}
 ABDD = {}
@@ -357,10 +358,20 @@ def generate(target, registry):
     ctx0 = Ctx(S=S0, S0=S0, a=Ctx(**zargs), mgrs=entry_mgrs, uses=c.uses, ex=ex, path=p0)
     pre = c.pre(ctx0)
     p0.pc.extend(g for _, g in pre)
+    for v in env.values():
+        if isinstance(v, (DictV, SetV)) and v.kkind in ('int', 'name'):
+            p0.pc.append(Exec.ne_axiom(v))
+            p0.pc.append(v._ne == (v._len >= 1))
+            p0.pc.append(v._len >= 0)
     for extra in target.get('assume', []):
         p0.pc.append(extra(ctx0))
     ex.side_paths = []
-    paths = ex.run_block(strip_docstring(fn.body), [p0])
+    starts = [p0]
+    if getattr(c, 'case_split', None):
+        # proof hint: the function is verified once per case of the listed conditions (a complete case distinction)
+        for cond in c.case_split(ctx0):
+            starts = [q for p_ in starts for q in (p_.fork(cond), p_.fork(z3.Not(cond)))]
+    paths = ex.run_block(strip_docstring(fn.body), starts)
     paths = paths + ex.side_paths
     npaths = dict(total=len(paths))
     for idx, p in enumerate(paths):
@@ -419,13 +430,23 @@ def _solve(job, fallbacks=True):
     name, smt2, timeout = job
     t0 = time.time()
     try:
-        s = Solver()
-        s.set('timeout', timeout)
-        s.from_string(smt2)
-        r = s.check()
-        res = str(r)
-        reason = s.reason_unknown() if res == 'unknown' else ''
-        back = 'z3-api'
+        # portfolio on the same SMT-LIB text: z3's default configuration with a short budget, then E-matching only (no auto
+        # configuration, no model-based instantiation: the obligations carry explicit triggers), then the default with another seed
+        res, reason, back = 'unknown', '', 'z3-api'
+        for label, opts, tmo in (('z3-api', {}, min(timeout, PRIMARY_MS)),
+                                 ('z3-api[ematching]', {'auto_config': False, 'smt.mbqi': False}, min(timeout, 2 * PRIMARY_MS)),
+                                 ('z3-api[seed]', {'smt.random_seed': 7}, timeout)):
+            s = z3.SolverFor('ALL') if False else Solver()
+            for k, v in opts.items():
+                s.set(k, v)
+            s.set('timeout', tmo)
+            s.from_string(smt2)
+            r = s.check()
+            res = str(r)
+            reason = s.reason_unknown() if res == 'unknown' else ''
+            back = label
+            if res == 'unsat':
+                break
         if res != 'unsat' and fallbacks:
             # fall-backs: cvc5 and the z3 CLI (different version) on the same SMT-LIB text
             fb = min(timeout, FALLBACK_MS)
